@@ -99,6 +99,12 @@ def st_case(draw, tier):
             nc, na = draw(st.integers(0, 2)), draw(st.integers(0, 2))
             if nc == na == 0:
                 nc = 1
+            # only one of the two numbers given: the other one is 0
+            # (`elif n_create is None: n_create = 0` in trans_moment_space)
+            if nc == 0 and draw(st.booleans()):
+                nc = None
+            elif na == 0 and draw(st.booleans()):
+                na = None
         order = min(order, 2 if len(sp1) <= 2 else 1)
     singles = draw(st.integers(0, 3)) == 0
     if singles:
@@ -207,6 +213,9 @@ def run_case(case):
             ms = {"pp": "ph", "ip": "h", "ea": "p", "dip": "hh",
                   "dea": "pp"}[variant]
             nc, na = ms.count("p"), ms.count("h")
+        elif nc is None or na is None:
+            nc, na = nc or 0, na or 0
+            r.cls("tm_one_count_omitted")
         d = m.full_tensor("d", nc, na, "anti", 0)
         psi0 = isr.psi0
         ket = [operator_apply(fk, m.N, d, nc, na, psi0[k])
